@@ -797,7 +797,10 @@ func faultPart(g *Gen, tmo time.Duration, nrandom int, stats map[string]int) {
 	}
 }
 
-// strings that are not valid UTF-8 in the string-typed fields (peer moniker, address, signature ...)
+// operator strings (address, moniker) that are not valid UTF-8, handed to peers.NewPeer: since b2c4118 the
+// peer holds the normalised value and nothing changes on the way to the socket application (regression input
+// of finding C20-invalid-utf8-string-sanitised). Control: a Peer struct LITERAL with a stray byte -- which the
+// code never builds and these cases do not use -- is still altered by the JSON layer.
 func badStringCases(g *Gen, sw *SockWorld, iw *InmemWorld, n int, stats map[string]int) {
 	g.badStr = true
 	defer func() { g.badStr = false }()
@@ -807,27 +810,54 @@ func badStringCases(g *Gen, sw *SockWorld, iw *InmemWorld, n int, stats map[stri
 		if b.Body.InternalTransactions == nil {
 			b.Body.InternalTransactions = []hg.InternalTransaction{g.Itx()}
 		}
-		b.Body.InternalTransactions = append(b.Body.InternalTransactions,
-			hg.NewInternalTransaction(hg.PEER_ADD, *peers.NewPeer("0X04AB", "addr", "moniker\xff\xfe")))
+		rawMon := "moniker\xff\xfe"
+		p := peers.NewPeer("0X04AB", "addr", rawMon)
+		g.rawInvalid++
+		fmt.Fprintf(out, "PX NP %s %s %s => %s %s %s\n", sTok("0X04AB"), sTok("addr"), sTok(rawMon), sTok(p.PubKeyHex), sTok(p.NetAddr), sTok(p.Moniker))
+		b.Body.InternalTransactions = append(b.Body.InternalTransactions, hg.NewInternalTransaction(hg.PEER_ADD, *p))
 		sw.h.resp = proxy.CommitResponse{StateHash: []byte("x")}
+		iw.h.resp = sw.h.resp
 		if _, err := sw.app.CommitBlock(*b); err != nil {
 			V("call-failed-without-fault", fmt.Sprintf("bad-string case %d: %v", i, err))
 			continue
 		}
-		rs := sw.h.LastBlock()
-		ch, _ := diffFields(blockFieldOrder, blockFields(b), blockFields(rs))
+		if _, err := iw.p.CommitBlock(*b); err != nil {
+			V("call-failed-without-fault", fmt.Sprintf("bad-string case %d (inmem): %v", i, err))
+			continue
+		}
+		rs, ri := sw.h.LastBlock(), iw.h.LastBlock()
+		// socket application vs in-process application
+		ch, _ := diffFields(blockFieldOrder, blockFields(ri), blockFields(rs))
 		res := "same"
 		if len(ch) > 0 {
 			res = strings.Join(ch, ",")
 			changed++
-			V("content-changed:string-not-utf8", fmt.Sprintf("fields=%s: a Go string that is not valid UTF-8 arrives with U+FFFD in place of the offending bytes", res))
+			V("content-changed:string-not-utf8", fmt.Sprintf("fields=%s: an operator string that is not valid UTF-8 reaches the socket application with U+FFFD in place of the offending bytes, the in-process application gets the raw bytes", res))
 		}
 		fmt.Fprintf(out, "PX U %d => %s\n", i, res)
 		fmt.Fprintf(out, "PX J B %s => %s\n", blockCanon(b), blockCanon(rs))
 		stats["model_cases"]++
 	}
-	stats["invalid_utf8_string_cases"] = n
+	stats["invalid_utf8_cases"] = n
+	stats["invalid_utf8_raw_inputs"] = g.rawInvalid
 	stats["invalid_utf8_string_changed"] = changed
+	// control: the literal
+	{
+		lit := peers.Peer{PubKeyHex: "0X04AB", NetAddr: "addr", Moniker: "literal\xff"}
+		b := &hg.Block{Body: hg.BlockBody{InternalTransactions: []hg.InternalTransaction{hg.NewInternalTransaction(hg.PEER_ADD, lit)}}}
+		res := "not-run"
+		if _, err := sw.app.CommitBlock(*b); err == nil {
+			ch, _ := diffFields(blockFieldOrder, blockFields(b), blockFields(sw.h.LastBlock()))
+			res = "same"
+			if len(ch) > 0 {
+				res = "changed"
+				stats["raw_literal_control_changed"] = 1
+			}
+		}
+		fmt.Fprintf(out, "PX W raw-peer-literal-control => %s\n", res)
+		fmt.Fprintf(out, "PX J B %s => %s\n", blockCanon(b), blockCanon(sw.h.LastBlock()))
+		stats["model_cases"]++
+	}
 }
 
 func b2i(b bool) int {
